@@ -10,7 +10,7 @@ namespace Chess
 def pawnOff (idx : Nat) : Nat := if idx = 0 ∨ idx = 3 then 9 else if idx = 1 ∨ idx = 4 then 7 else if idx = 6 then 16 else 8
 
 /-- the description of one generated pawn move: group index, squares, promotion kind -/
-structure PawnMv (side : Nat) (pawns cm : BB) (m idx f t k : Nat) : Prop where
+structure PawnMv (side : Nat) (pawns empty pm cm : BB) (m idx f t k : Nat) : Prop where
   idx7 : idx < 7
   mv : IsMv m f t k
   pawn : pawns.testBit f = true
@@ -21,6 +21,8 @@ structure PawnMv (side : Nat) (pawns cm : BB) (m idx f t k : Nat) : Prop where
   file7 : pawnOff idx = 7 → f % 8 ≠ (if side = 0 then 0 else 7)
   dbl : idx = 6 → f / 8 = (if side = 0 then 1 else 6)
   cap : (pawnOff idx = 9 ∨ pawnOff idx = 7) → cm.testBit t = true
+  push : (pawnOff idx = 8 ∨ pawnOff idx = 16) → empty.testBit t = true ∧ pm.testBit t = true
+  mid : idx = 6 → empty.testBit (if side = 0 then t - 8 else t + 8) = true
 
 theorem mem_promoMoves (f t m : Nat) (h : m ∈ promoMoves f t) :
     ∃ k, (k = 5 ∨ k = 4 ∨ k = 3 ∨ k = 2) ∧ m = mkPromotion f t k := by
@@ -72,7 +74,7 @@ theorem genPawnMoves_groups (side : Nat) (pawns empty pm cm : BB) :
   simp only [List.flatMap_cons, List.flatMap_nil, List.append_nil, pawnGroup, List.append_assoc]
 
 theorem mem_pawnGroup_white (pawns empty pm cm : BB) (m i : Nat)
-    (h : m ∈ pawnGroup 0 pawns empty pm cm i) : ∃ f t k, PawnMv 0 pawns cm m i f t k := by
+    (h : m ∈ pawnGroup 0 pawns empty pm cm i) : ∃ f t k, PawnMv 0 pawns empty pm cm m i f t k := by
   have h10 : ¬ ((1 : Nat) = 0) := by decide
   match i, h with
   | 0, h =>
@@ -84,7 +86,7 @@ theorem mem_pawnGroup_white (pawns empty pm cm : BB) (m i : Nat)
     have hfile := shift_NE_file _ sq h1
     obtain ⟨hpw, hr⟩ := rank_of_and pawns 6 (sq - 9) (by decide) (by omega) hsrc
     exact ⟨sq - 9, sq, k, by decide, ⟨rfl, by omega, hsq, by omega⟩, hpw, by simp [pawnOff]; omega, by simp; exact ⟨hk, hr⟩, by intro _; simpa using hfile,
-      by simp [pawnOff], by simp, by intro _; exact and_testBit_right _ _ _ hb⟩
+      by simp [pawnOff], by simp, by intro _; exact and_testBit_right _ _ _ hb, by simp [pawnOff], by simp⟩
   | 1, h =>
     simp only [pawnGroup, h10, if_true, if_false, List.mem_flatMap, List.mem_map, mem_bitsOf] at h
     obtain ⟨sq, ⟨hsq, hb⟩, hm⟩ := h
@@ -94,7 +96,7 @@ theorem mem_pawnGroup_white (pawns empty pm cm : BB) (m i : Nat)
     have hfile := shift_NW_file _ sq h1
     obtain ⟨hpw, hr⟩ := rank_of_and pawns 6 (sq - 7) (by decide) (by omega) hsrc
     exact ⟨sq - 7, sq, k, by decide, ⟨rfl, by omega, hsq, by omega⟩, hpw, by simp [pawnOff]; omega, by simp; exact ⟨hk, hr⟩, by simp [pawnOff],
-      by intro _; simpa using hfile, by simp, by intro _; exact and_testBit_right _ _ _ hb⟩
+      by intro _; simpa using hfile, by simp, by intro _; exact and_testBit_right _ _ _ hb, by simp [pawnOff], by simp⟩
   | 2, h =>
     simp only [pawnGroup, h10, if_true, if_false, List.mem_flatMap, List.mem_map, mem_bitsOf] at h
     obtain ⟨sq, ⟨hsq, hb⟩, hm⟩ := h
@@ -103,7 +105,7 @@ theorem mem_pawnGroup_white (pawns empty pm cm : BB) (m i : Nat)
     obtain ⟨_, g8, hsrc⟩ := shift_up_testBit .N 8 (by simp) _ sq h1
     obtain ⟨hpw, hr⟩ := rank_of_and pawns 6 (sq - 8) (by decide) (by omega) hsrc
     exact ⟨sq - 8, sq, k, by decide, ⟨rfl, by omega, hsq, by omega⟩, hpw, by simp [pawnOff]; omega, by simp; exact ⟨hk, hr⟩, by simp [pawnOff],
-      by simp [pawnOff], by simp, by simp [pawnOff]⟩
+      by simp [pawnOff], by simp, by simp [pawnOff], by intro _; exact ⟨and_testBit_right _ _ _ hb, and_testBit_right _ _ _ (and_testBit_left _ _ _ hb)⟩, by simp⟩
   | 3, h =>
     simp only [pawnGroup, h10, if_true, if_false, List.mem_flatMap, List.mem_map, mem_bitsOf] at h
     obtain ⟨sq, ⟨hsq, hb⟩, rfl⟩ := h
@@ -112,7 +114,7 @@ theorem mem_pawnGroup_white (pawns empty pm cm : BB) (m i : Nat)
     have hfile := shift_NE_file _ sq h1
     obtain ⟨hpw, hr⟩ := rank_of_andnot pawns 6 (sq - 9) (by decide) (by omega) hsrc
     exact ⟨sq - 9, sq, 0, by decide, IsMv.ofMove _ _ (by omega) hsq, hpw, by simp [pawnOff]; omega, by simp; exact hr, by intro _; simpa using hfile,
-      by simp [pawnOff], by simp, by intro _; exact and_testBit_right _ _ _ hb⟩
+      by simp [pawnOff], by simp, by intro _; exact and_testBit_right _ _ _ hb, by simp [pawnOff], by simp⟩
   | 4, h =>
     simp only [pawnGroup, h10, if_true, if_false, List.mem_flatMap, List.mem_map, mem_bitsOf] at h
     obtain ⟨sq, ⟨hsq, hb⟩, rfl⟩ := h
@@ -121,7 +123,7 @@ theorem mem_pawnGroup_white (pawns empty pm cm : BB) (m i : Nat)
     have hfile := shift_NW_file _ sq h1
     obtain ⟨hpw, hr⟩ := rank_of_andnot pawns 6 (sq - 7) (by decide) (by omega) hsrc
     exact ⟨sq - 7, sq, 0, by decide, IsMv.ofMove _ _ (by omega) hsq, hpw, by simp [pawnOff]; omega, by simp; exact hr, by simp [pawnOff],
-      by intro _; simpa using hfile, by simp, by intro _; exact and_testBit_right _ _ _ hb⟩
+      by intro _; simpa using hfile, by simp, by intro _; exact and_testBit_right _ _ _ hb, by simp [pawnOff], by simp⟩
   | 5, h =>
     simp only [pawnGroup, h10, if_true, if_false, List.mem_flatMap, List.mem_map, mem_bitsOf] at h
     obtain ⟨sq, ⟨hsq, hb⟩, rfl⟩ := h
@@ -129,7 +131,7 @@ theorem mem_pawnGroup_white (pawns empty pm cm : BB) (m i : Nat)
     obtain ⟨_, g8, hsrc⟩ := shift_up_testBit .N 8 (by simp) _ sq h1
     obtain ⟨hpw, hr⟩ := rank_of_andnot pawns 6 (sq - 8) (by decide) (by omega) hsrc
     exact ⟨sq - 8, sq, 0, by decide, IsMv.ofMove _ _ (by omega) hsq, hpw, by simp [pawnOff]; omega, by simp; exact hr, by simp [pawnOff],
-      by simp [pawnOff], by simp, by simp [pawnOff]⟩
+      by simp [pawnOff], by simp, by simp [pawnOff], by intro _; exact ⟨and_testBit_right _ _ _ (and_testBit_left _ _ _ hb), and_testBit_right _ _ _ hb⟩, by simp⟩
   | 6, h =>
     simp only [pawnGroup, h10, if_true, if_false, List.mem_flatMap, List.mem_map, mem_bitsOf] at h
     obtain ⟨sq, ⟨hsq, hb⟩, rfl⟩ := h
@@ -142,11 +144,11 @@ theorem mem_pawnGroup_white (pawns empty pm cm : BB) (m i : Nat)
     have e : sq - 8 - 8 = sq - 16 := by omega
     rw [e] at hpw hr
     exact ⟨sq - 16, sq, 0, by decide, IsMv.ofMove _ _ (by omega) hsq, hpw, by simp [pawnOff]; omega, by simp; exact hr, by simp [pawnOff],
-      by simp [pawnOff], by intro _; simp; omega, by simp [pawnOff]⟩
+      by simp [pawnOff], by intro _; simp; omega, by simp [pawnOff], by intro _; exact ⟨and_testBit_right _ _ _ hb, and_testBit_right _ _ _ (and_testBit_left _ _ _ hb)⟩, by intro _; simp; exact and_testBit_right _ _ _ hpushed⟩
   | (n + 7), h => simp [pawnGroup] at h
 
 theorem mem_pawnGroup_black (pawns empty pm cm : BB) (hp : ∀ j, pawns.testBit j = true → j < 64) (m i : Nat)
-    (h : m ∈ pawnGroup 1 pawns empty pm cm i) : ∃ f t k, PawnMv 1 pawns cm m i f t k := by
+    (h : m ∈ pawnGroup 1 pawns empty pm cm i) : ∃ f t k, PawnMv 1 pawns empty pm cm m i f t k := by
   have h10 : ¬ ((1 : Nat) = 0) := by decide
   match i, h with
   | 0, h =>
@@ -159,7 +161,7 @@ theorem mem_pawnGroup_black (pawns empty pm cm : BB) (hp : ∀ j, pawns.testBit 
     have hfile := shift_SW_file _ sq hlt h1
     obtain ⟨hpw, hr⟩ := rank_of_and pawns 1 (sq + 9) (by decide) hlt hsrc
     exact ⟨sq + 9, sq, k, by decide, ⟨rfl, hlt, hsq, by omega⟩, hpw, by simp [pawnOff], by simp; exact ⟨hk, hr⟩, by intro _; simpa using hfile,
-      by simp [pawnOff], by simp, by intro _; exact and_testBit_right _ _ _ hb⟩
+      by simp [pawnOff], by simp, by intro _; exact and_testBit_right _ _ _ hb, by simp [pawnOff], by simp⟩
   | 1, h =>
     simp only [pawnGroup, h10, if_true, if_false, List.mem_flatMap, List.mem_map, mem_bitsOf] at h
     obtain ⟨sq, ⟨hsq, hb⟩, hm⟩ := h
@@ -170,7 +172,7 @@ theorem mem_pawnGroup_black (pawns empty pm cm : BB) (hp : ∀ j, pawns.testBit 
     have hfile := shift_SE_file _ sq hlt h1
     obtain ⟨hpw, hr⟩ := rank_of_and pawns 1 (sq + 7) (by decide) hlt hsrc
     exact ⟨sq + 7, sq, k, by decide, ⟨rfl, hlt, hsq, by omega⟩, hpw, by simp [pawnOff], by simp; exact ⟨hk, hr⟩, by simp [pawnOff],
-      by intro _; simpa using hfile, by simp, by intro _; exact and_testBit_right _ _ _ hb⟩
+      by intro _; simpa using hfile, by simp, by intro _; exact and_testBit_right _ _ _ hb, by simp [pawnOff], by simp⟩
   | 2, h =>
     simp only [pawnGroup, h10, if_true, if_false, List.mem_flatMap, List.mem_map, mem_bitsOf] at h
     obtain ⟨sq, ⟨hsq, hb⟩, hm⟩ := h
@@ -180,7 +182,7 @@ theorem mem_pawnGroup_black (pawns empty pm cm : BB) (hp : ∀ j, pawns.testBit 
     have hlt := hp _ (and_testBit_left _ _ _ hsrc)
     obtain ⟨hpw, hr⟩ := rank_of_and pawns 1 (sq + 8) (by decide) hlt hsrc
     exact ⟨sq + 8, sq, k, by decide, ⟨rfl, hlt, hsq, by omega⟩, hpw, by simp [pawnOff], by simp; exact ⟨hk, by omega⟩, by simp [pawnOff],
-      by simp [pawnOff], by simp, by simp [pawnOff]⟩
+      by simp [pawnOff], by simp, by simp [pawnOff], by intro _; exact ⟨and_testBit_right _ _ _ hb, and_testBit_right _ _ _ (and_testBit_left _ _ _ hb)⟩, by simp⟩
   | 3, h =>
     simp only [pawnGroup, h10, if_true, if_false, List.mem_flatMap, List.mem_map, mem_bitsOf] at h
     obtain ⟨sq, ⟨hsq, hb⟩, rfl⟩ := h
@@ -190,7 +192,7 @@ theorem mem_pawnGroup_black (pawns empty pm cm : BB) (hp : ∀ j, pawns.testBit 
     have hfile := shift_SW_file _ sq hlt h1
     obtain ⟨hpw, hr⟩ := rank_of_andnot pawns 1 (sq + 9) (by decide) hlt hsrc
     exact ⟨sq + 9, sq, 0, by decide, IsMv.ofMove _ _ hlt hsq, hpw, by simp [pawnOff], by simp; exact hr, by intro _; simpa using hfile,
-      by simp [pawnOff], by simp, by intro _; exact and_testBit_right _ _ _ hb⟩
+      by simp [pawnOff], by simp, by intro _; exact and_testBit_right _ _ _ hb, by simp [pawnOff], by simp⟩
   | 4, h =>
     simp only [pawnGroup, h10, if_true, if_false, List.mem_flatMap, List.mem_map, mem_bitsOf] at h
     obtain ⟨sq, ⟨hsq, hb⟩, rfl⟩ := h
@@ -200,7 +202,7 @@ theorem mem_pawnGroup_black (pawns empty pm cm : BB) (hp : ∀ j, pawns.testBit 
     have hfile := shift_SE_file _ sq hlt h1
     obtain ⟨hpw, hr⟩ := rank_of_andnot pawns 1 (sq + 7) (by decide) hlt hsrc
     exact ⟨sq + 7, sq, 0, by decide, IsMv.ofMove _ _ hlt hsq, hpw, by simp [pawnOff], by simp; exact hr, by simp [pawnOff],
-      by intro _; simpa using hfile, by simp, by intro _; exact and_testBit_right _ _ _ hb⟩
+      by intro _; simpa using hfile, by simp, by intro _; exact and_testBit_right _ _ _ hb, by simp [pawnOff], by simp⟩
   | 5, h =>
     simp only [pawnGroup, h10, if_true, if_false, List.mem_flatMap, List.mem_map, mem_bitsOf] at h
     obtain ⟨sq, ⟨hsq, hb⟩, rfl⟩ := h
@@ -209,7 +211,7 @@ theorem mem_pawnGroup_black (pawns empty pm cm : BB) (hp : ∀ j, pawns.testBit 
     have hlt := hp _ (and_testBit_left _ _ _ hsrc)
     obtain ⟨hpw, hr⟩ := rank_of_andnot pawns 1 (sq + 8) (by decide) hlt hsrc
     exact ⟨sq + 8, sq, 0, by decide, IsMv.ofMove _ _ hlt hsq, hpw, by simp [pawnOff], by simp; omega, by simp [pawnOff],
-      by simp [pawnOff], by simp, by simp [pawnOff]⟩
+      by simp [pawnOff], by simp, by simp [pawnOff], by intro _; exact ⟨and_testBit_right _ _ _ (and_testBit_left _ _ _ hb), and_testBit_right _ _ _ hb⟩, by simp⟩
   | 6, h =>
     simp only [pawnGroup, h10, if_true, if_false, List.mem_flatMap, List.mem_map, mem_bitsOf] at h
     obtain ⟨sq, ⟨hsq, hb⟩, rfl⟩ := h
@@ -224,11 +226,11 @@ theorem mem_pawnGroup_black (pawns empty pm cm : BB) (hp : ∀ j, pawns.testBit 
     have e : sq + 8 + 8 = sq + 16 := by omega
     rw [e] at hpw hr hlt
     exact ⟨sq + 16, sq, 0, by decide, IsMv.ofMove _ _ hlt hsq, hpw, by simp [pawnOff], by simp; exact hr, by simp [pawnOff],
-      by simp [pawnOff], by intro _; simp; omega, by simp [pawnOff]⟩
+      by simp [pawnOff], by intro _; simp; omega, by simp [pawnOff], by intro _; exact ⟨and_testBit_right _ _ _ hb, and_testBit_right _ _ _ (and_testBit_left _ _ _ hb)⟩, by intro _; simp; exact and_testBit_right _ _ _ hpushed0⟩
   | (n + 7), h => simp [pawnGroup] at h
 
 theorem mem_pawnGroup (side : Nat) (hs : side ≤ 1) (pawns empty pm cm : BB) (hp : ∀ j, pawns.testBit j = true → j < 64) (m i : Nat)
-    (h : m ∈ pawnGroup side pawns empty pm cm i) : ∃ f t k, PawnMv side pawns cm m i f t k := by
+    (h : m ∈ pawnGroup side pawns empty pm cm i) : ∃ f t k, PawnMv side pawns empty pm cm m i f t k := by
   have : side = 0 ∨ side = 1 := by omega
   rcases this with rfl | rfl
   · exact mem_pawnGroup_white pawns empty pm cm m i h
@@ -347,7 +349,7 @@ def pawnIdxOf (side m : Nat) : Nat :=
      else if (if side = 0 then moveTo m - moveFrom m else moveFrom m - moveTo m) = 7 then 1
      else if (if side = 0 then moveTo m - moveFrom m else moveFrom m - moveTo m) = 8 then 2 else 3)
 
-theorem PawnMv.idxOf {side : Nat} {pawns cm : BB} {m idx f t k : Nat} (h : PawnMv side pawns cm m idx f t k) : pawnIdxOf side m = idx := by
+theorem PawnMv.idxOf {side : Nat} {pawns cm : BB} {m idx f t k : Nat} (h : PawnMv side pawns empty pm cm m idx f t k) : pawnIdxOf side m = idx := by
   unfold pawnIdxOf
   rw [h.mv.from_, h.mv.to_, h.mv.promo_]
   have hoff := h.off
@@ -388,7 +390,7 @@ theorem genPawnMoves_nodup (side : Nat) (hs : side ≤ 1) (pawns empty pm cm : B
     exact hij this.symm
 
 theorem mem_genPawnMoves (side : Nat) (hs : side ≤ 1) (pawns empty pm cm : BB) (hp : ∀ j, pawns.testBit j = true → j < 64) (m : Nat)
-    (h : m ∈ genPawnMoves side pawns empty pm cm) : ∃ idx f t k, PawnMv side pawns cm m idx f t k := by
+    (h : m ∈ genPawnMoves side pawns empty pm cm) : ∃ idx f t k, PawnMv side pawns empty pm cm m idx f t k := by
   rw [genPawnMoves_groups, List.mem_flatMap] at h
   obtain ⟨i, _, hm⟩ := h
   obtain ⟨f, t, k, h⟩ := mem_pawnGroup side hs pawns empty pm cm hp m i hm
